@@ -76,6 +76,18 @@ def structured_cases(tier):
             "#[darling(from_word = w)] enum R { #[darling(word)] A, B }", "struct R { attrs: Vec<syn::Attribute> }",
             "#[darling(forward_attrs)] struct R { attrs: Vec<syn::Attribute> }", "#[darling(forward_attrs(a))] struct R { #[darling(with = f)] attrs: X }",
             "struct R { #[darling(bogus)] attrs: X }", "struct R { #[darling(with = f, with = g)] data: X }", "struct R { #[darling(skip)] ident: X }",
+            # a cross-field / cross-variant rule together with a local error elsewhere in the same body: all must be reported
+            'struct R { #[darling(flatten)] a: A, #[darling(flatten)] b: B, #[darling(rename = "x", rename = "y")] c: u8 }',
+            "struct R { #[darling(flatten)] a: A, #[darling(bogus)] c: u8, #[darling(flatten)] b: B }",
+            "struct R { #[darling(skip = 1)] c: u8, #[darling(flatten)] a: A, #[darling(flatten)] b: B }",
+            "enum R { #[darling(word)] A, #[darling(word)] B, #[darling(skip, skip)] C }",
+            "enum R { #[darling(bogus)] Z, #[darling(word)] A, #[darling(word)] B }",
+            "#[darling(from_word = make)] enum R { #[darling(word)] A, B(u8, u8) }",
+            "#[darling(from_word = make)] enum R { #[darling(word)] A, #[darling(rename = 1)] B }",
+            "#[darling(from_word = make)] struct R(#[darling(bogus)] u8);",
+            "#[darling(attributes(a))] struct R { attrs: Vec<syn::Attribute>, #[darling(flatten, multiple)] x: X }",
+            "#[darling(attributes(a))] struct R { #[darling(rename = 1)] y: u8, attrs: Vec<syn::Attribute> }",
+            "#[darling(attributes(a))] struct R { attrs: X, #[darling(flatten)] a: A, #[darling(flatten)] b: B, #[darling(with)] c: u8 }",
             "struct R(u8, u8);", "struct R();", "enum R { A(u8, u8) }", "enum R { #[darling(skip)] A(u8, u8), B }", "enum R {}", "union R { a: u8 }"]
     return out
 
